@@ -274,6 +274,14 @@ func signingInputOf(media string, env []byte) (input []byte, sig []byte, err err
 	return envenc.SigStructure(prot, payload), sg, nil
 }
 
+// buildDefaultRequest is the unvaried request of a format/key (used as "some other signing" between a Sign and the use of its result).
+func buildDefaultRequest(media, keyName string) (*signature.SignRequest, *envenc.RemoteSigner, error) {
+	r := &reqSpec{media: media, payload: []byte(`{"other":"request of another length, signed in between"}`), cty: "application/vnd.cncf.notary.payload.v1+json",
+		signingTime: pki.Now.Add(-2 * time.Hour), scheme: envenc.SchemeX509, keyName: keyName, chainLen: 2}
+	req, rs, _, err := buildRequest(r)
+	return req, rs, err
+}
+
 func c08Body(c *mc.Ctx, media, keyName string) {
 	var devs []reqDev
 	for _, d := range c08Devs {
@@ -347,6 +355,16 @@ func c08Body(c *mc.Ctx, media, keyName string) {
 	if serr != nil {
 		c.Outcome("sign-error")
 		c.Fail(sigOf("valid-request-refused"), "variations %v: %v", names, serr)
+		return
+	}
+	// before the returned bytes are looked at, another envelope object of the same format signs another (default) request: the bytes
+	// handed out for this request are the caller's and stay what they were
+	returned := append([]byte(nil), env...)
+	if other, _, oerr := buildDefaultRequest(media, keyName); oerr == nil {
+		doSign(media, other)
+	}
+	if !bytes.Equal(returned, env) {
+		c.Fail(fmt.Sprintf("C08 %s bytes returned by Sign changed when another envelope was signed", mediaShort(media)), "variations %v: the returned slice no longer holds what Sign returned", names)
 		return
 	}
 	content, perr, verr, vpan := parseVerify(media, env)
